@@ -110,6 +110,9 @@ def run(ctx):
     fwd(ctx, h, rec, res)
     from sa import eff
     eff.check_fwd(ctx, [("edgegraph.output.pyvis.pyvis_render_customizable", "make_pyvis_net", {"show_buttons_filter": None})])
+    from rules import hist
+    hist.run(ctx, res, 'C15', extra=('rules.histobs', 'pyvis'))       # composition: histories through the public API against the reference model (rules/hist.py)
+    common.vacuity(res, "HISTORY", 250)
     common.vacuity(res, "EVENTS", 80)
     res.analysed = common.analysed(ctx, [FN, "edgegraph.output.pyvis.pyvis_render_customizable"])
     res.explanation = "For every class of link position/kind the calls made into pyvis are exactly the specified node and edge events."
